@@ -89,6 +89,25 @@ func newNativeReplayer(spec *Spec) (*nativeReplayer, error) {
 	for _, h := range spec.Harness {
 		repl[filepath.Join(repoPkgDir, "zz_verif_"+h)] = filepath.Join(verifDir, "harness", h)
 	}
+	// the package's own test files are not part of the replay binary (they may not even compile against a scaled source)
+	if tests, _ := filepath.Glob(filepath.Join(repoPkgDir, "*_test.go")); true {
+		for _, tf := range tests {
+			repl[tf] = ""
+		}
+	}
+	if spec.useScaled {
+		rw, err := rewrittenSources(spec)
+		if err != nil {
+			return nil, err
+		}
+		i := 0
+		for p, b := range rw {
+			f := filepath.Join(dir, fmt.Sprintf("scaled%d.go", i))
+			i++
+			os.WriteFile(f, b, 0o644)
+			repl[p] = f
+		}
+	}
 	ovb, _ := json.Marshal(map[string]interface{}{"Replace": repl})
 	ovFile := filepath.Join(dir, "overlay.json")
 	os.WriteFile(ovFile, ovb, 0o644)
@@ -251,7 +270,7 @@ func replayMain(args []string) int {
 		fmt.Println(err)
 		return 2
 	}
-	spec := &Spec{Property: rf.Property, Harness: rf.Harness}
+	spec := &Spec{Property: rf.Property, Harness: rf.Harness, Rewrites: rf.Rewrites, useScaled: len(rf.Rewrites) > 0}
 	rep, err := newNativeReplayer(spec)
 	if err != nil {
 		fmt.Println(err)
